@@ -147,6 +147,7 @@ class ScriptedPort(ebbfake.PortExtras):
         self.closed = False
         self.hand = None                  # pending handshake reply
         self.fresh = False                # just opened by connect(): nothing but probes written so far
+        self.close_fault = ""             # "", "serial" or "notopen": what close() raises after closing
 
     def begin_call(self):
         self.ops = []
@@ -244,6 +245,10 @@ class ScriptedPort(ebbfake.PortExtras):
 
     def close(self):
         self.closed = True
+        if self.close_fault:
+            # the port is gone all the same (cable pulled): close() reports it, the object must still end up not connected
+            exc = self.serial.SerialException if self.close_fault == "serial" else self.serial.serialutil.PortNotOpenError
+            raise exc() if self.close_fault != "serial" else exc("injected close failure")
 
 
 def opt(v):
@@ -298,8 +303,9 @@ def enc_ret(m, val, last_reply_text):
 class Session:
     """one EBBMotionWrap object + scripted environment; run_call() executes one public call and returns the judge's record"""
 
-    def __init__(self, dev="ebb_ok", start_connected=True, board=None, supplier=None, enumerated=True):
+    def __init__(self, dev="ebb_ok", start_connected=True, board=None, supplier=None, enumerated=True, close_fault=""):
         self.e3m, self.e3s, self.serial = mods()
+        self.close_fault = close_fault
         self.dev = dev
         self.supplier = supplier
         self.port = None
@@ -310,6 +316,7 @@ class Session:
             if sess.dev == "unopenable":
                 raise sess.serial.SerialException("could not open port")
             sess.port = ScriptedPort(sess.serial, sess.dev, lambda text: sess.supplier(text))
+            sess.port.close_fault = sess.close_fault
             sess.port.fresh = True
             sess.port.ops = sess.cur_ops
             return sess.port
@@ -320,6 +327,7 @@ class Session:
         self.e3s.serial.Serial = factory
         if start_connected:
             self.port = ScriptedPort(self.serial, dev, lambda text: sess.supplier(text))
+            self.port.close_fault = close_fault
             self.obj.port = self.port
             self.obj.port_name = "/dev/ttyACM0"
             from packaging.version import parse
@@ -380,6 +388,9 @@ def judge(ctx, name, events, chunk=400):
 # G: scripts from the model
 # ---------------------------------------------------------------------------
 
+CLOSE_FAULTS = ["", "", "serial", "notopen"]
+
+
 def run_script(hist, dev, board, start_connected, wsoff=0):
     """execute one TLC-generated history; returns (calls, drift) - drift = calls whose observables differ from the model's prediction.
     wsoff rotates the whitespace padding of request texts / the connect() argument form"""
@@ -401,7 +412,7 @@ def run_script(hist, dev, board, start_connected, wsoff=0):
             plan["r"] = {"vals": list(r.get("vals", [])), "s": r.get("s", "")}
         return plan
 
-    sess = Session(dev, start_connected, board, supplier)
+    sess = Session(dev, start_connected, board, supplier, close_fault=CLOSE_FAULTS[wsoff % 4])
     calls, drift = [], []
     try:
         for k, h in enumerate(hist):
@@ -532,14 +543,29 @@ def random_history(rng, ncalls, fault_rate, alphabet=None, devs=("ebb_ok",), sta
         shape = rng.choice(["nc", "dc"]) if (name in ("QX", "Q") and rng.random() < 0.4) else ""       # only requests that the generic query() issues
         return {"w": "ok", "e": 0 if poll else rng.choice([0, 0, 0, 1, 2, 24, 25]), "o": "conf", "r": pyb.reply(text), "shape": shape}
 
-    sess = Session(dev, start_connected, b, supplier)
+    sess = Session(dev, start_connected, b, supplier, close_fault=rng.choice(CLOSE_FAULTS))
     calls, script = [], []
+    pending = []
     try:
         for k in range(ncalls):
             if len(devs) > 1 and sess.obj.port is None and rng.random() < 0.15:
                 sess.dev = rng.choice(list(devs))                    # the device is swapped while the port is closed
                 script.append(["<replug>", [], sess.dev])
-            m, a, s = random_call(rng, alphabet)
+            if pending:
+                m, a, s = pending.pop(0)
+            else:
+                m, a, s = random_call(rng, alphabet)
+                if m == "var_write_int32" and rng.random() < 0.3:
+                    # an overlapping rewrite: the same value at the same slot again after another write landed 1..3 slots above (or a single
+                    # byte into the tail) - whatever the object remembers about "already written" must not survive the overlap
+                    v, sl = a
+                    sl = min(sl, 24)
+                    k2 = rng.randint(1, 3)
+                    other = ["var_write_int32", [rng.choice([0, -1, 16909060, rng.randint(-2 ** 31, 2 ** 31 - 1)]), sl + k2], ""] if rng.random() < 0.7 \
+                        else ["var_write", [rng.randint(0, 255), sl + k2], ""]
+                    m, a = "var_write_int32", [v, sl]
+                    pending = [tuple(other), ("var_write_int32", [v, sl], ""), ("var_read_int32", [sl], "")]
+                    pending = [p for p in pending if p[0] in alphabet]
             script.append([m, a, s])
             calls.append(sess.run_call(m, a, s, ws=rng.randint(0, 3)))
     finally:
